@@ -122,6 +122,9 @@ pub fn classify(info: &mut CaseInfo, comp: Comp, seq: &[ContentSpec], bytes: &[V
     if seq.iter().any(|c| matches!(c.source, Source::FileRange { .. })) {
         info.class("file-range-source");
     }
+    if seq.iter().any(|c| matches!(c.source, Source::FileRange { after: 0, .. })) {
+        info.class("file-range-to-end-source");
+    }
     if seq.iter().any(|c| matches!(c.source, Source::File)) {
         info.class("file-source");
     }
@@ -198,7 +201,7 @@ impl Property for C01 {
         }
         let comps = [Comp::None, Comp::Lz4(3), Comp::Lzma(2), Comp::Zstd(5)];
         let hints = [Hint::Yes, Hint::No, Hint::Detect];
-        let sources = [Source::Mem, Source::File, Source::FileRange { before: 7, after: 3 }];
+        let sources = [Source::Mem, Source::File, Source::FileRange { before: 7, after: 3 }, Source::FileRange { before: 513, after: 0 }];
         let mut out = vec![];
         let mut k = 0u32;
         for &len in &lens {
@@ -214,7 +217,7 @@ impl Property for C01 {
                         }
                         v
                     } else {
-                        vec![(sources[(k % 3) as usize], (k % 3) as usize, if k % 2 == 0 { Entropy::High } else { Entropy::Low })]
+                        vec![(sources[(k % 4) as usize], (k % 3) as usize, if k % 2 == 0 { Entropy::High } else { Entropy::Low })]
                     };
                     for (source, pos, ent) in variants {
                         k += 1;
@@ -248,6 +251,7 @@ impl Property for C01 {
             "empty-content",
             "offset-width-change",
             "file-range-source",
+            "file-range-to-end-source",
             "4095-split",
             "duplicate",
             "comp:none",
@@ -413,6 +417,7 @@ impl Property for C01 {
             "empty-content",
             "offset-width-change",
             "file-range-source",
+            "file-range-to-end-source",
             "4095-split",
         ];
         info.nontrivial = info.classes.iter().any(|c| nt.contains(&c.as_str()));
